@@ -1,7 +1,7 @@
 """Ownership of set iteration order (property C15).
 
 `install()` puts a meta-path finder in front of the import system that loads every `bespokeasm`
-module from the working tree through an AST rewrite: `set(...)` calls, set displays and set
+module from the working tree through an AST rewrite: `set(...)` / `frozenset(...)` calls, set displays and set
 comprehensions build a `ChoiceSet`, a `set` subclass whose `__iter__` asks the scheduler for an
 order.  Membership, length and algebra are unchanged.  Each iteration of a set that contains a
 hash-randomised element (str / bytes / object) is a *choice point*:
@@ -114,11 +114,27 @@ class ChoiceSet(set):
         return (ChoiceSet, (list(set.__iter__(self)),))
 
 
+class ChoiceFrozenSet(frozenset):
+    __slots__ = ()
+
+    def __iter__(self):
+        items = list(frozenset.__iter__(self))
+        if len(items) > 1 and any(_randomised(x) for x in items):
+            try:
+                items.sort(key=repr)
+            except Exception:
+                pass
+            items = SCHED.order(items)
+        return iter(items)
+
+
 class _Rewriter(ast.NodeTransformer):
     def visit_Call(self, node):
         self.generic_visit(node)
         if isinstance(node.func, ast.Name) and node.func.id == 'set':
             node.func = ast.Name(id='verif_ChoiceSet_', ctx=ast.Load())
+        elif isinstance(node.func, ast.Name) and node.func.id == 'frozenset':
+            node.func = ast.Name(id='verif_ChoiceFrozenSet_', ctx=ast.Load())
         return node
 
     def visit_Set(self, node):
@@ -163,5 +179,6 @@ def install():
     if any(m == 'bespokeasm' or m.startswith('bespokeasm.') for m in sys.modules):
         raise RuntimeError('bespokeasm was imported before the set-order hook was installed')
     builtins.verif_ChoiceSet_ = ChoiceSet
+    builtins.verif_ChoiceFrozenSet_ = ChoiceFrozenSet
     sys.meta_path.insert(0, _Finder())
     _installed = True
